@@ -70,7 +70,9 @@ class C06(Prop):
             "cdelay": t.choice((0.0, 0.0, 0.3)) if surface.startswith("asgi") else 0.0,
             "lat": t.choice(["mixed", "fast", "mixed", "slow"]),
             "raising": t.draw(3) == 0,
-            "iter_kind": t.weighted([(4, "gen"), (1, "iter"), (1, "iter-aclose")]),
+            "iter_kind": t.weighted([(6, "gen"), (2, "iter"), (2, "iter-aclose"), (1, "outer-aclose")]),
+            # (ASGI) the request method: a HEAD request reaches the same streaming endpoint
+            "head": t.draw(8) == 0,
             # the producer waits for its next item in a blocking call handed to the thread pool (run_in_threadpool) instead of asyncio.sleep
             "bridge": surface.startswith("asgi") and t.draw(6) == 0,
             "time_fracs": [t.draw(1000) / 1000.0 for _ in range(2)],
@@ -220,16 +222,29 @@ class C06(Prop):
 
             class ItClose(It):  # an async iterator object that can be closed but is no async generator (no asend / athrow)
                 async def aclose(self):
+                    st["aclose_calls"] = st.get("aclose_calls", 0) + 1
+                    await g.aclose()
+
+            class Outer:        # a subscription-like object: __aiter__ hands out a SEPARATE iterator, releasing is the object's own aclose()
+                def __aiter__(self):
+                    return It().__aiter__()
+
+                async def aclose(self):
+                    st["aclose_calls"] = st.get("aclose_calls", 0) + 1
                     await g.aclose()
 
             if plan["iter_kind"] == "iter-aclose":
                 return ItClose()
+            if plan["iter_kind"] == "outer-aclose":
+                return Outer()
             st["inner"] = g
             return It()
 
         async def scenario(loop):
             k = plan.get("req_msgs", 1)
-            req = AbstractRequest("GET" if k == 1 else "POST", "/", headers=[("accept", "text/event-stream")], body=b"x" * k)
+            req = AbstractRequest(("HEAD" if plan.get("head") else "GET") if k == 1 else "POST", "/", headers=[("accept", "text/event-stream")], body=b"x" * k)
+            if req.method == "HEAD":
+                ctx.probe("head_request_to_streaming_endpoint")
             kw = {}
             if k > 1:
                 ctx.probe("unread_request_body_in_several_messages")
@@ -319,7 +334,12 @@ class C06(Prop):
                 ctx.violate("C06|%s|termination|late" % surf, "disconnect at %.3f, returned at %.3f, bound %.3f (P=%s, Lmax=%s)" % (t_disc, snap["t_ret"], bound, P, L_max))
         # 2. release
         started = snap["st"]["started"]
-        if plan["iter_kind"] in ("gen", "iter-aclose"):
+        ncl = snap["st"].get("aclose_calls", 0)
+        if plan["iter_kind"] in ("iter-aclose", "outer-aclose") and not plan.get("iter_fails") and (ncl > 1 or (ncl != 1 and variant is None)):
+            # an object that offers aclose() is released through it exactly once in a run without faults (the body is streamed,
+            # whatever the method) and never twice; under faults the statement's own measure (the cleanup marker) decides
+            ctx.violate("C06|%s|release|aclose-called-%d-times|%s" % (surf, snap["st"].get("aclose_calls", 0), plan["iter_kind"]), "producer object's aclose() calls: %d" % snap["st"].get("aclose_calls", 0))
+        if plan["iter_kind"] in ("gen", "iter-aclose", "outer-aclose"):
             if started and snap["st"]["cleanup"] != 1:
                 ctx.violate("C06|%s|release|cleanup-ran-%d-times" % (surf, snap["st"]["cleanup"]), "producer started, cleanup count %d" % snap["st"]["cleanup"])
         elif snap["st"]["cleanup"] > 1:
@@ -583,11 +603,28 @@ class C06(Prop):
 
         peer = WsgiPeer(ctx, ctx.sched, AbstractRequest("GET", "/"), surface=surf)
         g = gen()                       # referenced until after the snapshot: an abandoned generator would otherwise be
-        resp = StreamResponse(g)        # finalised by reference counting and run its cleanup "by itself"
+        src = g                         # finalised by reference counting and run its cleanup "by itself"
+        if plan["iter_kind"] != "gen":
+            class Cursor:               # an iterator object with its own, non-idempotent close() (a pooled cursor, a file-like reader)
+                def __iter__(self):
+                    return self
+
+                def __next__(self):
+                    return next(g)
+
+                def close(self):
+                    st["close_calls"] = st.get("close_calls", 0) + 1
+                    g.close()
+
+            src = Cursor()
+            ctx.probe("wsgi_stream_iterator_object")
+        resp = StreamResponse(src)
         peer.run(resp, close_after=close_after)
         snap = dict(st)
         del resp
         g.close()
+        if snap.get("close_calls", 0) > 1:
+            ctx.violate("C06|%s|release|producer-closed-%d-times" % (surf, snap["close_calls"]), "the producer object's close() was called %d times" % snap["close_calls"])
         ctx.ev("snap", snap["cleanup"], peer.n_items, type(peer.exc).__name__)
         ctx.actors = 1
         if variant is None:
